@@ -289,7 +289,14 @@ const DOCS: &[&str] = &[
 ];
 
 const MODES: &[&str] = &["clean", "list", "list-all", "list-json", "list-all-json"];
-const NOWS: &[&str] = &["2020-01-01T00:00:00Z", "2030-06-01T12:00:00+09:00"];
+// the same kind of instant in three zone spellings (Z, east of UTC, west of UTC)
+const NOWS: &[&str] = &[
+    "2020-01-01T00:00:00Z",
+    "2030-06-01T12:00:00+09:00",
+    // west of UTC, and before every `to` in the documents: if the explicit instant were lost and
+    // the wall clock used instead, the expired elements would be removed
+    "1995-06-30T16:00:00-08:00",
+];
 const TZS: &[Option<&str>] = &[
     Some("UTC"),
     Some("Asia/Tokyo"),
